@@ -98,6 +98,21 @@ pub fn palettes(seed: u64, n_random: usize) -> Vec<(String, [Rgb3; 16])> {
         }
         v.push((format!("random#{k}"), p));
     }
+    // palettes that differ from a built-in one in one or two entries, each changed entry keeping one or two channel values
+    let mut rng = Rng::new(seed, 0xC10_9999);
+    for (k, base) in [REF_VGA, REF_WIN10, REF_VGA, REF_WIN10].iter().enumerate() {
+        let mut p = *base;
+        for _ in 0..=(k % 2) {
+            let i = rng.below(16) as usize;
+            let e = p[i];
+            p[i] = match rng.below(3) {
+                0 => (e.0, e.1, e.2.wrapping_add(20 + rng.below(60) as u8)),
+                1 => (e.0, e.1.wrapping_add(85), e.2.wrapping_sub(7)),
+                _ => (e.0.wrapping_sub(40), e.1, e.2),
+            };
+        }
+        v.push((format!("near-builtin#{k}"), p));
+    }
     v
 }
 
